@@ -312,7 +312,7 @@ func runASCase(c ASCase) *vkit.Outcome {
 
 var propAS = vkit.NewProp([]string{P}, "c20antispam", genASCase, runASCase)
 
-func TestC20Antispam(t *testing.T) { propAS.Check(t) }
+func TestC20Antispam(t *testing.T) { propAS.CrashFile = true; propAS.Check(t) }
 
 // ------------------------------------------------------------------ (b) concurrent IsSpam calls
 
@@ -504,4 +504,4 @@ func runConcCase(c ConcCase) *vkit.Outcome {
 
 var propConc = vkit.NewProp([]string{P}, "c20antispamconc", genConcCase, runConcCase)
 
-func TestC20AntispamConcurrent(t *testing.T) { propConc.Check(t) }
+func TestC20AntispamConcurrent(t *testing.T) { propConc.CrashFile = true; propConc.Check(t) }
